@@ -31,7 +31,8 @@ from gymnasium import spaces
 from harness.common import ratj, unratj
 
 RULE = (
-    "cases from one SplitMix64 stream: (vn) one or two VecNormalize wrappers over DummyVecEnv of 1-4 scripted "
+    "cases from one SplitMix64 stream: (vn) one or two VecNormalize wrappers over DummyVecEnv -- or over a plain scripted "
+    "VecEnv whose infos carry no / only some terminal_observation -- of 1-4 scripted "
     "environments (Box rank 1/2, uint8 image, Dict with all-Box keys and any subset / None of normalised keys, Dict "
     "with a Discrete key), dyadic observation streams (small / large / constant / tiny families), clip, gamma, "
     "epsilon from grids, every episode-script style, 4-28 operations among reset / step / toggle training, norm_obs, "
@@ -160,6 +161,76 @@ def make_tap_class():
     return Tap
 
 
+def make_base_class():
+    from stable_baselines3.common.vec_env.base_vec_env import VecEnv
+
+    class ScriptVecEnv(VecEnv):
+        """A plain vectorised environment (not DummyVecEnv): steps its scripted sub-environments, auto-resets finished
+        ones, and puts "terminal_observation" into the info of a finished environment only if `term_mode` says so:
+        "none" = never (legal: every consumer guards for a missing key), "some" = only for even environment indices."""
+
+        def __init__(self, envs, term_mode):
+            self.envs = envs
+            self.term_mode = term_mode
+            self._actions = None
+            super().__init__(len(envs), envs[0].observation_space, envs[0].action_space)
+
+        def _stack(self, obs):
+            if isinstance(obs[0], dict):
+                return {k: np.stack([np.asarray(o[k]) for o in obs]) for k in obs[0]}
+            return np.stack([np.asarray(o) for o in obs])
+
+        def reset(self):
+            return self._stack([e.reset()[0] for e in self.envs])
+
+        def step_async(self, actions):
+            self._actions = actions
+
+        def step_wait(self):
+            obs, rews, dones, infos = [], [], [], []
+            for i, e in enumerate(self.envs):
+                o, r, term, trunc, _ = e.step(self._actions[i])
+                done = bool(term or trunc)
+                info = {"TimeLimit.truncated": bool(trunc and not term)}
+                if done:
+                    if self.term_mode == "some" and i % 2 == 0:
+                        info["terminal_observation"] = o
+                    o = e.reset()[0]
+                obs.append(o)
+                rews.append(r)
+                dones.append(done)
+                infos.append(info)
+            return self._stack(obs), np.array(rews, dtype=np.float32), np.array(dones, dtype=bool), infos
+
+        def close(self):
+            pass
+
+        def get_attr(self, attr_name, indices=None):
+            return [getattr(e, attr_name) for e in self.envs]
+
+        def set_attr(self, attr_name, value, indices=None):
+            for e in self.envs:
+                setattr(e, attr_name, value)
+
+        def env_method(self, method_name, *method_args, indices=None, **method_kwargs):
+            return [getattr(e, method_name)(*method_args, **method_kwargs) for e in self.envs]
+
+        def env_is_wrapped(self, wrapper_class, indices=None):
+            return [False for _ in self.envs]
+
+    return ScriptVecEnv
+
+
+_BASE = None
+
+
+def base_class():
+    global _BASE
+    if _BASE is None:
+        _BASE = make_base_class()
+    return _BASE
+
+
 _TAP = None
 
 
@@ -249,6 +320,7 @@ def gen_vn(rng, widen):
     late_norm_obs = (not ws[0]["norm_obs"]) and rng.chance(0.5)
     case = {
         "kind": "vn", "space": kind, "n": n, "fam": fam, "norm_keys": norm_keys, "w": ws,
+        "base": rng.weighted([("dummy", 5), ("noterm", 2), ("someterm", 2)]),
         "venvs": [gen_venv(rng, n, fam) for _ in ws],
     }
     n_ops = rng.randint(4, 28 if not widen else 40)
@@ -487,7 +559,13 @@ class Wrap:
         self.n = n
         self.case = case
         self.cfg0 = cfg
-        self.tap = tap_class()(DummyVecEnv([EnvMaker(case["space"], ven["scripts"][e], ven["resets"][e]) for e in range(n)]))
+        makers = [EnvMaker(case["space"], ven["scripts"][e], ven["resets"][e]) for e in range(n)]
+        base = case.get("base", "dummy")
+        if base == "dummy":
+            inner = DummyVecEnv(makers)
+        else:  # a base VecEnv whose infos carry no / only some "terminal_observation"
+            inner = base_class()([m() for m in makers], "none" if base == "noterm" else "some")
+        self.tap = tap_class()(inner)
         kw = {}
         if case["space"] in DICT_KEYS and case["norm_keys"] is not None:
             kw["norm_obs_keys"] = list(case["norm_keys"])
@@ -1458,6 +1536,7 @@ def check_cases(ctx, cases):
             rep.count(f"space:{case['space']}")
             rep.count(f"n_envs={case['n']}")
             rep.count(f"fam:{case['fam']}")
+            rep.count(f"base:{case.get('base', 'dummy')}")
             rep.count("wrappers=%d" % len(case["w"]))
             rep.count("norm_keys:" + ("n/a" if case["space"] not in DICT_KEYS else "none" if case["norm_keys"] is None else str(len(case["norm_keys"]))))
             rep.count("dones", n_done)
